@@ -59,6 +59,7 @@ def prune_validation_batch(acc, batch, prop=None, bound=1):
             stats = dict(executions=0, choice_points=0, pruned=0, transitions=0, states=set())
 
             def on_exec(ex, points, seen=seen):
+                acc.tick()  # one finished execution is progress (an unpruned exploration of one scenario can take minutes)
                 vs = sorted((p, w) for p, w, _ in ex.violations + ex.final_checks())
                 # (the peak of live processes is a path property, not a state property: it is judged by the monitor at every spawn and is
                 # deliberately not part of what must coincide)
